@@ -49,6 +49,10 @@ def oracle(sc, res, rep, case):
     def bad(sig, what):
         rep.violation("C10:" + sig, what, case)
 
+    # the statement speaks of what is SENT: every Offer / StopOffer entry the instance hands to the announcer must reach the
+    # wire exactly once, to the same destination, by the time the loop is idle (pending[dest] = queued, not yet seen sent)
+    pending = {}
+
     def start(i, t):
         inst[i].update(running=True, t0=t, n=0, last=None)
 
@@ -107,12 +111,31 @@ def oracle(sc, res, rep, case):
             if text.startswith("raised "):
                 bad("raises:" + text.split(" ")[1], f"an entry point or callback raised {text.split(' ')[1]} at {t}")
                 continue
+            if text.startswith("send "):
+                try:
+                    sdest, _sid, _fl, entries = stateful.decode_send(text)
+                except Exception as exc:  # noqa: BLE001
+                    bad("undecodable-send", repr(exc))
+                    continue
+                for e in entries:
+                    if e.sd_type != H.SOMEIPSDEntryType.OfferService:
+                        continue
+                    etok = sdio.entry_tok(e)
+                    q = pending.get(sdest, [])
+                    hit = [x for x in q if x[1] == etok]
+                    if hit:
+                        q.remove(hit[0])
+                    else:
+                        bad("offer-sent-not-queued", f"an offer entry left for {sdest} at {t} that no instance had handed over "
+                                                      f"(or it left twice): {etok[:160]}")
+                continue
             if not text.startswith("queued "):
                 continue
             _, dest, tok = text.split(" ", 2)
             p = tok.split(" ")
             if p[1] != "1":
                 continue  # not an OfferService entry
+            pending.setdefault(dest, []).append((t, tok))
             key = tuple(int(v) for v in (p[2], p[3], p[4], p[6]))
             ttl = int(p[5])
             if key not in ids:
@@ -165,6 +188,15 @@ def oracle(sc, res, rep, case):
                 if x["stop_expected"] >= 1:
                     bad("missing-stopoffer", f"instance {i} was stopped at {x['stop_t']} after offering; no StopOffer by idle time {t}")
                     x["stop_expected"] = 0
+            for d, q in pending.items():
+                late = [x for x in q if x[0] + tm.coll < t]   # the collection window of these has closed
+                if late:
+                    kind = "StopOffer" if late[0][1].split(" ")[5] == "0" else "offer"
+                    bad("offer-not-sent" if kind == "offer" else "stopoffer-not-sent",
+                        f"{len(late)} offer entr{'y' if len(late) == 1 else 'ies'} handed to the announcer for {d} never reached the "
+                        f"wire by idle time {t}; first (handed over at {late[0][0]}): {late[0][1][:160]}")
+                    for x in late:
+                        q.remove(x)
             rep.dist["C10:idle-states-judged"] += 1
     rep.dist["C10:offers-checked"] += sum(min(x["n"], 10 ** 6) for x in inst.values())
 
